@@ -110,6 +110,15 @@ def r_project_rule(ck: Checker) -> None:
     calls = resolved_calls(ck.prg, ex, f"ngo.{CLS}.project_rule")
     ck.need(len(calls) == 1, "execute projects rules")
     ck.guard("only rules are split", ex, calls[0], f"{unparse(calls[0].args[0])}.ast_type == ASTType.Rule", "")
+    # the binding analysis good_split relies on is only sound on the inlined form (no `AUX = C+C` equalities left over from
+    # the ex-lined normal form of an earlier round): the rules that are split come out of inline_arithmetic
+    lp_e = enclosing_loop(ex, calls[0])
+    src = {st_.origin.get(unparse(calls[0].args[0]), "") for st_ in ite.states(calls[0])}
+    itxt = ite.texts(lp_e, lp_e.iter) if lp_e is not None else set()
+    prg_p = ex.params()[1]
+    oki = bool(itxt) and all(t == f"inline_arithmetic({prg_p})" for t in itxt)
+    ck.add("rules are split in their inlined form", oki, ex, lp_e or ex.node, f"the loop over the program iterates {sorted(itxt)}; expected `inline_arithmetic({prg_p})`",
+           "from the second round of optimize's fixpoint loop on, rules arrive ex-lined (`even(AUX), AUX = C+C`): ngo's binder analysis counts C as bound by that equality, gringo cannot invert C+C, and the split exports C from an auxiliary rule that does not bind it (unsafe result)")
 
 
 RULES = [
